@@ -1169,6 +1169,34 @@ def rule_str2xml(ctx):
                         % (F.short(san), ch, got, ch, entity), detail=detail)
             else:
                 ctx.ok(rule, key, fn.where(), fn.short, detail=detail)
+        # a path that returns the argument itself (a fast path for "nothing to escape") must be guarded by a
+        # test that looks for every character the function replaces
+        pdecl = fn.params[0]["decl"]
+        ident_returns = []
+        for r in fn.walk():
+            if r.get("k") != "ReturnStmt":
+                continue
+            inner = [x for x in F.walk(r) if x.get("k") == "DeclRefExpr"]
+            others_ = [x for x in F.walk(r) if x.get("k") in ("CXXMemberCallExpr", "CallExpr", "CXXOperatorCallExpr")]
+            if inner and all(x["ref"].get("decl") == pdecl for x in inner) and not others_:
+                ident_returns.append(r)
+        replaced = {chr(k) for k, v in mapping.items() if v not in ([None], [chr(k)])}
+        for ri, r in enumerate(ident_returns):
+            guard_chars = set()
+            for a in fn.ancestors(r):
+                if a.get("k") == "IfStmt":
+                    for x in F.walk(a.get("cond")):
+                        if x.get("k") == "StringLiteral" and isinstance(x.get("v"), str):
+                            guard_chars |= set(x["v"])
+                        if x.get("k") == "CharacterLiteral" and isinstance(x.get("v"), int):
+                            guard_chars.add(chr(x["v"]))
+            missing = sorted(replaced - guard_chars)
+            key = "%s:unescaped-return-path%s" % (F.short(san), "" if len(ident_returns) == 1 else "#%d" % (ri + 1))
+            ctx.report(rule, key, not missing, fn.where(r), fn.short,
+                       msg="" if not missing else
+                       "%s returns its argument unchanged on a path whose guard does not look for %s: a string "
+                       "containing only these characters is not escaped" % (F.short(san), missing),
+                       detail={"guard_characters": sorted(guard_chars), "replaced": sorted(replaced)})
         # every other character must be copied unchanged
         others = {k: v for k, v in mapping.items() if k not in {e[0] for e in _ENTITIES}}
         key = "%s:other-characters-copied" % F.short(san)
